@@ -37,13 +37,30 @@ def stencil(f, c, dc, h=1.0):
     return D, S
 
 
-def judge_object(c, rng, fint, kT, k0_exact, size, wmask, t, label, ndir=6):
-    """fint(cvec)->array, kT(cvec)->dense matrix; wmask: boolean mask of w amplitudes"""
+def judge_object(c, rng, fint, kT, k0_exact, size, wmask, t, label, ndir=6, blocks=None):
+    """fint(cvec)->array, kT(cvec)->dense matrix; wmask: boolean mask of w amplitudes; blocks: index ranges of the
+    components (panels of an assembly)"""
     # state
     cvec = rng.normal(size=size)
     amp = float(10 ** rng.uniform(-1, np.log10(5.0)))
     cvec[wmask] *= t * amp
     cvec[~wmask] *= t * amp * 0.05 * float(rng.uniform(0, 2))
+    # states with exactly quiet parts: membrane-only, bending-only, one component without out-of-plane / any amplitudes
+    pattern = str(rng.choice(['dense'] * 6 + ['membrane', 'bending', 'quiet_w', 'quiet_all']))
+    blk = np.ones(size, bool)
+    if blocks:
+        b0, b1 = blocks[int(rng.integers(0, len(blocks)))]
+        blk[:] = False; blk[b0:b1] = True
+    if pattern == 'membrane':
+        cvec[wmask] = 0.0
+    elif pattern == 'bending':
+        cvec[~wmask] = 0.0
+    elif pattern == 'quiet_w':
+        cvec[wmask & blk] = 0.0
+    elif pattern == 'quiet_all' and blocks and len(blocks) > 1:
+        cvec[blk] = 0.0
+    c.tag('state:' + pattern)
+    c.desc['state_pattern'] = pattern
     c.desc['amp_in_thicknesses'] = amp
     cb = cvec.copy()
     f0 = np.asarray(fint(np.zeros(size)), dtype=float)
@@ -219,7 +236,7 @@ def case_assembly(rng, tier):
         c.violate('assembly internal force can be evaluated at all', '%s: %s' % (type(e).__name__, str(e)[:120]))
         return c
     try:
-        cvec, amp = judge_object(c, rng, fint, kT, K0, size, wmask, t, 'assembly: ', ndir=4)
+        cvec, amp = judge_object(c, rng, fint, kT, K0, size, wmask, t, 'assembly: ', ndir=4, blocks=[(p.col_start, p.col_end) for p in ps])
     except Exception as e:
         return c.reject('%s in assembly fint/kT: %s' % (type(e).__name__, str(e)[:100]))
     # the connection forces are part of fint: fint(c) - sum of panel forces = k0_conn * c
